@@ -134,7 +134,7 @@ func d12rDrive(t *testing.T, id string, r *dRun, frng *rand.Rand, faults *[]d12r
 				return nil, false, false
 			}
 			if w.q.Len() == 0 {
-				if w.q.ReleaseDelayed() == 0 {
+				if w.q.ReleaseDue(10*time.Second) == 0 {
 					converged = true
 					break
 				}
